@@ -26,7 +26,7 @@ def _symbolic():
 
     from pyvc import sym
     from pyvc.monitor import MonitorSpec, install_lock_intrinsics
-    from pyvc.symexec import CounterVal, LockVal, SObj, MDict, Val, PyTuple
+    from pyvc.symexec import CounterVal, LockVal, SObj, MDict, Val, PyTuple, NONE
     from pyvc.sym import TInt, TBool, TOpaque
 
     install_lock_intrinsics(M)
@@ -265,6 +265,434 @@ def _symbolic():
         c.monitor = 'ShareableThreadLock'
         c.sidecar_module = 'contracts.lock'
 
+    # ---------------------------------------------------------------------------------------
+    NONE_, SH_, EX_ = 0, 1, 2
+
+    class ProcessLock(MonitorSpec):
+        """ShareableProcessLock (UNIX branch: is_windows == False).
+        ghost: klock = this process's fcntl lock on the fd (0 none, 1 shared, 2 exclusive)."""
+
+        name = 'ShareableProcessLock'
+        protected = {'_shared_by': '_lock', '_exclusively_held_by': '_lock'}
+
+        def setup(self, ex, st):
+            st.env['self'] = SObj('ShareableProcessLock', {'_fd': Val(TInt, z3.Int('fd'))})
+            st.env['is_windows'] = Val(TBool, z3.BoolVal(False))
+
+        def havoc(self, ex, st):
+            f = st.env['self'].fields
+            f['_shared_by'] = CounterVal.fresh(TInt, 'shb')
+            f['_exclusively_held_by'] = CounterVal.fresh(TInt, 'exh')
+            f['_lock'] = LockVal(z3.Int(sym.fresh_name('owner')), z3.Int(sym.fresh_name('depth')), False, '_lock')
+            st.mon['klock'] = z3.Int(sym.fresh_name('klock'))
+
+        def snapshot(self, ex, st):
+            f = st.env['self'].fields
+            return {'shb': f['_shared_by'].copy(), 'exh': f['_exclusively_held_by'].copy(),
+                    'klock': st.mon['klock'], 'owner': f['_lock'].owner}
+
+        def normalize(self, ex, st):
+            f = st.env['self'].fields
+            for n in ('_shared_by', '_exclusively_held_by'):
+                f[n].cnt = self.named(st, f[n].cnt, 'n_cnt')
+                f[n].keys = self.named(st, f[n].keys, 'n_keys')
+
+        def inv(self, ex, st):
+            f = st.env['self'].fields
+            shb, exh, lk, kl = f['_shared_by'], f['_exclusively_held_by'], f['_lock'], st.mon['klock']
+            S = z3.Select
+            t = z3.Int(sym.fresh_name('t'))
+            u = z3.Int(sym.fresh_name('u'))
+
+            def rep(c):
+                return z3.ForAll([t], z3.And(S(c.keys, t) == (S(c.cnt, t) > 0), S(c.cnt, t) >= 0),
+                                 patterns=[S(c.keys, t), S(c.cnt, t)])
+
+            return [
+                ('P0 0 is not a thread id', z3.And(S(shb.cnt, 0) == 0, S(exh.cnt, 0) == 0)),
+                ('P1 zero-count entries of _shared_by are deleted', rep(shb)),
+                ('P2 zero-count entries of _exclusively_held_by are deleted', rep(exh)),
+                ('P3 lock owner/depth consistent (plain Lock)',
+                 z3.And(lk.depth >= 0, lk.depth <= 1, (lk.owner == 0) == (lk.depth == 0))),
+                ('K0 kernel lock state is none/shared/exclusive', z3.And(kl >= 0, kl <= 2)),
+                ('K1 while a thread holds exclusively the process holds the exclusive fcntl lock',
+                 z3.ForAll([t], z3.Implies(S(exh.keys, t), kl == EX_), patterns=[S(exh.keys, t)])),
+                ('K2 while a thread holds shared the process holds an fcntl lock',
+                 z3.ForAll([t], z3.Implies(S(shb.keys, t), kl != NONE_), patterns=[S(shb.keys, t)])),
+                ('K3 the exclusive fcntl lock is kept only while some thread holds exclusively',
+                 z3.Implies(kl == EX_, z3.Exists([u], S(exh.keys, u), patterns=[S(exh.keys, u)]))),
+                ('K4 an fcntl lock is kept only while some thread holds (released with the last holder)',
+                 z3.Implies(kl != NONE_, z3.Exists([u], z3.Or(S(exh.keys, u), S(shb.keys, u)),
+                                                  patterns=[S(exh.keys, u), S(shb.keys, u)]))),
+            ]
+
+        def frame(self, ex, st, pre):
+            f = st.env['self'].fields
+            tid = st.mon['tid']
+            u = z3.Int(sym.fresh_name('u'))
+            shb, exh = f['_shared_by'], f['_exclusively_held_by']
+            return [('F1 a thread changes only its own counts',
+                     z3.ForAll([u], z3.Implies(u != tid, z3.And(shb.get(u) == pre['shb'].get(u),
+                                                                exh.get(u) == pre['exh'].get(u))),
+                               patterns=[shb.get(u), exh.get(u)]))]
+
+        def own(self, st):
+            f = st.env['self'].fields
+            tid = st.mon['tid']
+            return {'sh': f['_shared_by'].get(tid), 'ex': f['_exclusively_held_by'].get(tid)}
+
+        def local_pre(self, ex, st, point):
+            f = st.env['self'].fields
+            tid = st.mon['tid']
+            res = []
+            own = st.mon.get('own')
+            if own is not None and point == 'yield':
+                res += [f['_shared_by'].get(tid) == own['sh'], f['_exclusively_held_by'].get(tid) == own['ex']]
+            return res
+
+        def before_yield(self, ex, st, node):
+            st.mon['own'] = self.own(st)
+            f = st.env['self'].fields
+            tid = st.mon['tid']
+            pre = st.mon['pre']
+            shared = ex.truthy(st.env['shared'], st)
+            ex.oblige(st, 'raises', 'lock granted to a non-reentrant request only if the thread held nothing',
+                      z3.Or(ex.truthy(st.env['reentrant'], st),
+                            z3.And(pre['shb'].get(tid) == 0, pre['exh'].get(tid) == 0)), node.lineno,
+                      'granted => reentrant or not held before')
+            ex.oblige(st, 'grant', 'an exclusive request is granted only with the exclusive fcntl lock',
+                      z3.Implies(z3.Not(shared), st.mon['klock'] == EX_), node.lineno,
+                      'granted exclusive => kernel lock exclusive')
+            ex.oblige(st, 'grant', 'a granted request holds an fcntl lock',
+                      st.mon['klock'] != NONE_, node.lineno, 'granted => kernel lock held')
+
+        def on_raise(self, ex, st, exc, lineno):
+            f = st.env['self'].fields
+            tid = st.mon['tid']
+            pre = st.mon['pre']
+            if exc == 'BodyException':
+                return
+            ex.oblige(st, 'raises', f'{exc}: counts and kernel lock unchanged',
+                      z3.And(f['_shared_by'].get(tid) == pre['shb'].get(tid),
+                             f['_exclusively_held_by'].get(tid) == pre['exh'].get(tid),
+                             st.mon['klock'] == pre['klock']), lineno, f'{exc} leaves state unchanged')
+            if exc == 'RecursiveDeadlockError':
+                ex.oblige(st, 'raises', 'RecursiveDeadlockError only for a non-reentrant request of a holder',
+                          z3.And(z3.Not(ex.truthy(st.env['reentrant'], st)),
+                                 z3.Or(pre['shb'].get(tid) > 0, pre['exh'].get(tid) > 0)),
+                          lineno, 'RecursiveDeadlockError => not reentrant and held')
+            elif exc == 'AcquiringProcessLevelLockWouldBlockError':
+                ex.oblige(st, 'raises', 'WouldBlock only for a non-blocking request',
+                          z3.Not(ex.truthy(st.env['blocking'], st)), lineno, 'WouldBlock => not blocking')
+            else:
+                ex.oblige(st, 'raises', f'unexpected exception {exc}', z3.BoolVal(False), lineno, f'no {exc}')
+
+    MONITORS['ShareableProcessLock'] = ProcessLock()
+
+    @M.intrinsic('stmt:_process_level_lock')
+    def _pll(ex, st, call):
+        """fcntl.lockf(fd, LOCK_SH|LOCK_EX [|LOCK_NB]): replaces this process's lock; a non-blocking
+        request may fail (another process), then nothing changes and
+        AcquiringProcessLevelLockWouldBlockError is raised"""
+        args = [ex.eval(a, st) for a in call.args]
+        kw = {k.arg: ex.eval(k.value, st) for k in call.keywords}
+        shared = ex.truthy(kw.get('shared', args[1] if len(args) > 1 else None), st)
+        blocking = ex.truthy(kw.get('blocking', args[2] if len(args) > 2 else None), st)
+        fd = args[0]
+        ex.safety(st, fd.t == st.env['self'].fields['_fd'].t, 'locks its own fd', call)
+        fail = st.clone()
+        fail.assume(z3.Not(blocking))
+        fail.path.append(f'L{call.lineno}:kernel-busy')
+        st.mon['klock'] = z3.If(shared, z3.IntVal(SH_), z3.IntVal(EX_))
+        res = [(st, ('next',))]
+        if ex.feasible(fail):
+            res.append((fail, ('raise', 'AcquiringProcessLevelLockWouldBlockError', call.lineno)))
+        return res
+
+    @M.intrinsic('stmt:_process_level_unlock')
+    def _plu(ex, st, call):
+        st.mon['klock'] = z3.IntVal(NONE_)
+        return [(st, ('next',))]
+
+    c = M.contract('ShareableProcessLock.lock', params={'shared': Bool, 'blocking': Bool, 'reentrant': Bool})
+    c.monitor = 'ShareableProcessLock'
+    c.sidecar_module = 'contracts.lock'
+
+    # ---------------------------------------------------------------------------------------
+    Key = TOpaque('PoolKey')
+    Obj = TOpaque('PoolObj')
+
+    class RefPool(MonitorSpec):
+        """ThreadSafeKeyedRefPool.  ghost: users[k] = number of with-bodies running for key k;
+        destroyed[o] = destructor was called on object o; made = objects created by the factory."""
+
+        name = 'ThreadSafeKeyedRefPool'
+        protected = {'_refs': '_lock'}
+
+        def setup(self, ex, st):
+            st.env['self'] = SObj('ThreadSafeKeyedRefPool', {})
+
+        def havoc(self, ex, st):
+            f = st.env['self'].fields
+            f['_refs'] = MDict.fresh(Key, [Obj, TInt], 'refs')
+            f['_lock'] = LockVal(z3.Int(sym.fresh_name('owner')), z3.Int(sym.fresh_name('depth')), False, '_lock')
+            f['_destructor'] = Val(sym.TOption(sym.TOpaque('Fn')), sym.TOption(sym.TOpaque('Fn')).fresh('destr'))
+            f['_factory'] = Val(sym.TOpaque('Fn'), sym.TOpaque('Fn').fresh('fact'))
+            st.mon['users'] = z3.Const(sym.fresh_name('users'), z3.ArraySort(Key.sort(), I))
+            st.mon['destroyed'] = z3.Const(sym.fresh_name('destroyed'), z3.ArraySort(Obj.sort(), z3.BoolSort()))
+            if 'has_destr' in st.mon:
+                st.assume(sym.TOption(sym.TOpaque('Fn')).is_none(f['_destructor'].t) == z3.Not(st.mon['has_destr']))
+            else:
+                st.mon['has_destr'] = z3.Not(sym.TOption(sym.TOpaque('Fn')).is_none(f['_destructor'].t))
+
+        def snapshot(self, ex, st):
+            f = st.env['self'].fields
+            r = f['_refs']
+            return {'keys': r.keys, 'obj': r.arrs[0], 'cnt': r.arrs[1], 'users': st.mon['users'],
+                    'destroyed': st.mon['destroyed']}
+
+        def normalize(self, ex, st):
+            r = st.env['self'].fields['_refs']
+            r.keys = self.named(st, r.keys, 'n_keys')
+            r.arrs = [self.named(st, a, 'n_arr') for a in r.arrs]
+            st.mon['users'] = self.named(st, st.mon['users'], 'n_users')
+            st.mon['destroyed'] = self.named(st, st.mon['destroyed'], 'n_destroyed')
+
+        def inv(self, ex, st):
+            f = st.env['self'].fields
+            r, lk = f['_refs'], f['_lock']
+            S = z3.Select
+            k = z3.Const(sym.fresh_name('k'), Key.sort())
+            k2 = z3.Const(sym.fresh_name('k2'), Key.sort())
+            users, destroyed = st.mon['users'], st.mon['destroyed']
+            return [
+                ('R1 the reference count of a pooled object is the number of users inside its with-body',
+                 z3.ForAll([k], z3.Implies(S(r.keys, k), z3.And(S(r.arrs[1], k) == S(users, k),
+                                                                 S(users, k) >= 1)),
+                           patterns=[S(r.keys, k)])),
+                ('R2 keys without users are not in the pool (bookkeeping empty at quiescence)',
+                 z3.ForAll([k], z3.Implies(z3.Not(S(r.keys, k)), S(users, k) == 0),
+                           patterns=[S(users, k)])),
+                ('R3 a pooled object has not been destroyed (e.g. its fd is still open)',
+                 z3.ForAll([k], z3.Implies(S(r.keys, k), z3.Not(S(destroyed, S(r.arrs[0], k)))),
+                           patterns=[S(r.keys, k)])),
+                ('R4 lock owner/depth consistent (plain Lock)',
+                 z3.And(lk.depth >= 0, lk.depth <= 1, (lk.owner == 0) == (lk.depth == 0))),
+                ('R5 different keys never share a pooled object (one fd per path)',
+                 z3.ForAll([k, k2], z3.Implies(z3.And(S(r.keys, k), S(r.keys, k2), k != k2),
+                                               S(r.arrs[0], k) != S(r.arrs[0], k2)),
+                           patterns=[z3.MultiPattern(S(r.keys, k), S(r.keys, k2))])),
+            ]
+
+        def frame(self, ex, st, pre):
+            f = st.env['self'].fields
+            r = f['_refs']
+            S = z3.Select
+            k = z3.Const(sym.fresh_name('k'), Key.sort())
+            key = st.env['key'].t
+            return [('F1 only the entry of the requested key changes',
+                     z3.ForAll([k], z3.Implies(k != key, z3.And(
+                         S(r.keys, k) == S(pre['keys'], k), S(r.arrs[0], k) == S(pre['obj'], k),
+                         S(r.arrs[1], k) == S(pre['cnt'], k), S(st.mon['users'], k) == S(pre['users'], k))),
+                               patterns=[S(r.keys, k), S(st.mon['users'], k)]))]
+
+        def local_pre(self, ex, st, point):
+            f = st.env['self'].fields
+            r = f['_refs']
+            S = z3.Select
+            res = []
+            if point == 'yield':
+                key = st.env['key'].t
+                # this user is still inside: the entry exists and holds the object that was yielded
+                res += [S(st.mon['users'], key) >= 1, S(r.keys, key),
+                        S(r.arrs[0], key) == st.mon['yielded_obj']]
+            return res
+
+        def before_yield(self, ex, st, node):
+            key = st.env['key'].t
+            S = z3.Select
+            st.mon['users'] = z3.Store(st.mon['users'], key, S(st.mon['users'], key) + 1)
+            obj = ex.eval(node.value.value, st)
+            st.mon['yielded_obj'] = obj.t
+            r = st.env['self'].fields['_refs']
+            ex.oblige(st, 'grant', 'the yielded object is the pooled object of the key, not destroyed',
+                      z3.And(S(r.keys, key), S(r.arrs[0], key) == obj.t,
+                             z3.Not(S(st.mon['destroyed'], obj.t))), node.lineno,
+                      'yielded object == pooled object and alive')
+            pre = st.mon['pre']
+            ex.oblige(st, 'grant', 'an existing pooled object is shared, a new one is created only if none exists',
+                      z3.Implies(S(pre['keys'], key), obj.t == S(pre['obj'], key)), node.lineno,
+                      'existing entry => same object')
+
+        def after_yield(self, ex, st):
+            key = st.env['key'].t
+            S = z3.Select
+            st.mon['users'] = z3.Store(st.mon['users'], key, S(st.mon['users'], key) - 1)
+
+        def on_exit(self, ex, st):
+            if not st.mon.get('yielded'):
+                return
+            key = st.env['key'].t
+            S = z3.Select
+            pre = st.mon['pre']
+            obj = st.mon['yielded_obj']
+            last = S(pre['users'], key) == 1
+            ex.oblige(st, 'exit', 'the destructor runs exactly when the last user leaves (if there is one)',
+                      S(st.mon['destroyed'], obj) == z3.Or(S(pre['destroyed'], obj),
+                                                          z3.And(last, st.mon['has_destr'])),
+                      0, 'destroyed <=> last user left and destructor given')
+            ex.oblige(st, 'exit', 'the entry is removed exactly when the last user leaves',
+                      S(st.env['self'].fields['_refs'].keys, key) == z3.Not(last), 0,
+                      'entry removed <=> last user left')
+
+        def on_raise(self, ex, st, exc, lineno):
+            if exc != 'BodyException':
+                ex.oblige(st, 'raises', f'unexpected exception {exc}', z3.BoolVal(False), lineno, f'no {exc}')
+
+    MONITORS['ThreadSafeKeyedRefPool'] = RefPool()
+
+    @M.intrinsic('call:Fn')
+    def _factory(ex, st, args, kwargs, node):
+        o = Obj.fresh('made')
+        # a new object (os.open gives a new descriptor; constructors give new objects): alive
+        st.assume(z3.Not(z3.Select(st.mon['destroyed'], o)))
+        r = st.env['self'].fields['_refs']
+        k = z3.Const(sym.fresh_name('k'), Key.sort())
+        # ... and different from every object currently pooled (those are alive, e.g. open fds)
+        st.assume(z3.ForAll([k], z3.Implies(z3.Select(r.keys, k), z3.Select(r.arrs[0], k) != o),
+                            patterns=[z3.Select(r.keys, k)]))
+        return Val(Obj, o)
+
+    @M.intrinsic('call:Opt<Fn>')
+    def _destructor(ex, st, args, kwargs, node):
+        o = args[1]
+        ex.safety(st, z3.Not(z3.Select(st.mon['destroyed'], o.t)), 'object destroyed at most once', node)
+        st.mon['destroyed'] = z3.Store(st.mon['destroyed'], o.t, True)
+        return NONE
+
+    c = M.contract('ThreadSafeKeyedRefPool.__call__', params={'key': Opaque('PoolKey')})
+    c.monitor = 'ThreadSafeKeyedRefPool'
+    c.sidecar_module = 'contracts.lock'
+
+    # ---------------------------------------------------------------------------------------
+    # composition functions: which pool / lock is entered with which key and flags, in which order
+    class CM:
+        def __init__(self, name, args):
+            self.name, self.args = name, args
+
+    class Trace(MonitorSpec):
+        name = 'composition'
+
+        def setup(self, ex, st):
+            st.mon['trace'] = []
+
+        def havoc(self, ex, st):
+            pass
+
+        def before_yield(self, ex, st, node):
+            v = st.mon.get('yield_value')
+            st.mon['trace'] = st.mon['trace'] + [('yield', v)]
+
+        def on_exit(self, ex, st):
+            want = EXPECTED[ex.c.qualname](st)
+            got = st.mon['trace']
+            ok = len(want) == len(got)
+            conj = []
+            if ok:
+                for (wn, wargs), (gn, gargs) in zip(want, got):
+                    if wn != gn:
+                        ok = False
+                        break
+                    if wn == 'yield':
+                        wargs, gargs = [wargs], [gargs]
+                    if len(wargs) != len(gargs):
+                        ok = False
+                        break
+                    for a, b in zip(wargs, gargs):
+                        if a is None and (b is None or b is NONE):
+                            continue
+                        if a is None or b is None or b is NONE:
+                            ok = False
+                            break
+                        try:
+                            conj.append(ex.eq_term(a, b, st))
+                        except Exception:
+                            ok = False
+            goal = z3.And(*conj) if (ok and conj) else z3.BoolVal(ok)
+            ex.oblige(st, 'trace', 'locks and pools are entered with the specified keys and flags, in order: '
+                      + ' > '.join(n for n, _ in want), goal, 0, 'composition trace == specification', keep=True)
+
+    MONITORS['composition'] = Trace()
+    Path_ = TOpaque('PathStr')
+
+    def _cm(name):
+        def h(ex, st, args, kwargs, node):
+            return CM(name, list(args) + [kwargs[k] for k in sorted(kwargs)])
+        return h
+
+    for nm in ('_fd_ref', '_process_level_lock_ref', '_thread_level_lock_ref', 'process_level_lock',
+               'thread_level_lock', 'process_level_path_lock'):
+        M.intrinsics[nm] = _cm(nm)
+
+    def _ref_lock(ex, st, args, kwargs, node):
+        if isinstance(args[0], Val) and args[0].ty.key() == 'LockRef':
+            return CM('ref.lock', list(args) + [kwargs[k] for k in sorted(kwargs)])
+        return NotImplemented
+
+    M.intrinsics['method:lock'] = _ref_lock
+
+    def _normpath(ex, st, args, kwargs, node):
+        f = z3.Function('normpath', Path_.sort(), Path_.sort())
+        return Val(Path_, f(args[0].t))
+
+    M.intrinsics['os.path.normpath'] = _normpath
+
+    _with_lock = M.intrinsics['with']
+
+    def _with(ex, st, cm, item, s):
+        if not isinstance(cm, CM):
+            return _with_lock(ex, st, cm, item, s)
+        st.mon['trace'] = st.mon['trace'] + [(cm.name, cm.args)]
+        if item.optional_vars is not None:
+            ty = {'_fd_ref': TInt, 'process_level_path_lock': TInt}.get(cm.name, TOpaque('LockRef'))
+            v = Val(ty, ty.fresh('as_' + cm.name))
+            st.mon.setdefault('bound', {})[cm.name] = v
+            ex.assign(item.optional_vars, v, st)
+        return ex.exec_block(s.body, st)
+
+    M.intrinsics['with'] = _with
+
+    def _b(st, name):
+        return st.mon.get('bound', {}).get(name)
+
+    EXPECTED = {
+        'process_level_lock': lambda st: [
+            ('_process_level_lock_ref', [st.env['fd']]),
+            ('ref.lock', [_b(st, '_process_level_lock_ref'), st.env['shared'], st.env['blocking'], st.env['reentrant']]),
+            ('yield', None)],
+        'thread_level_lock': lambda st: [
+            ('_thread_level_lock_ref', [st.env['key']]),
+            ('ref.lock', [_b(st, '_thread_level_lock_ref'), st.env['shared'], st.env['blocking'], st.env['reentrant']]),
+            ('yield', None)],
+        'process_level_path_lock': lambda st: [
+            # ONE descriptor per normalised path, whatever the mode (fcntl locks die when any fd of
+            # the file is closed)
+            ('_fd_ref', [st.env['normalized_path']]),
+            ('process_level_lock', [_b(st, '_fd_ref'), st.env['shared'], st.env['blocking'], st.env['reentrant']]),
+            ('yield', _b(st, '_fd_ref'))],
+        'path_lock': lambda st: [
+            ('thread_level_lock', [st.env['key'], st.env['shared'], st.env['blocking'], st.env['reentrant']]),
+            ('process_level_path_lock', [st.env['key'], st.env['shared'], st.env['blocking'], st.env['reentrant']]),
+            ('yield', _b(st, 'process_level_path_lock'))],
+    }
+    flags = {'shared': Bool, 'blocking': Bool, 'reentrant': Bool}
+    for q, first in (('process_level_lock', {'fd': Int}), ('thread_level_lock', {'key': Opaque('PathStr')}),
+                     ('process_level_path_lock', {'normalized_path': Opaque('PathStr')}),
+                     ('path_lock', {'path': Opaque('PathStr')})):
+        c = M.contract(q, params=dict(first, **flags))
+        c.monitor = 'composition'
+        c.sidecar_module = 'contracts.lock'
+
     # lemma: reader-writer exclusion follows from the invariant
     def exclusion_lemma():
         """Inv => not (t inside an exclusive body and another thread u inside any body)"""
@@ -369,3 +797,72 @@ def replay_thread_lock(rp):
                        f'other thread holds the lock after thread {tid} left its shared body '
                        f'(state {th})')
     return True, f'all blocked threads were granted the lock (blocked before: {blocked})'
+
+
+# ------------------------------------------------------------------------------------------------
+# bounded stand-in (native): nested path_lock requests of one thread on real files
+# ------------------------------------------------------------------------------------------------
+def _nested_case(case):
+    """run one nesting of path_lock requests; returns None or a failure description"""
+    import os
+    import tempfile
+    from contextlib import ExitStack
+
+    import pharmpy.internals.fs.lock as L
+
+    d = tempfile.mkdtemp(prefix='verif_lock_')
+    paths = [os.path.join(d, f'f{i}') for i in range(2)]
+    for p in paths:
+        open(p, 'w').close()
+    try:
+        fds = {}
+        with ExitStack() as stack:
+            for (pi, shared) in case:
+                # the same file through a differently spelled path must share the descriptor
+                spelled = paths[pi] if shared else os.path.join(d, '.', f'f{pi}')
+                fd = stack.enter_context(L.path_lock(spelled, shared=shared, blocking=True, reentrant=True))
+                if pi in fds and fds[pi] != fd:
+                    return f'two descriptors open for one path while locked: {fds[pi]} and {fd}'
+                fds[pi] = fd
+                os.fstat(fd)  # must be open
+                key = os.path.normpath(paths[pi])
+                if sum(1 for k in L._fd_ref._refs if (k == key or (isinstance(k, tuple) and key in k))) != 1:
+                    return f'descriptor pool has not exactly one entry for {key}: {list(L._fd_ref._refs)}'
+        for pool in (L._fd_ref, L._process_level_lock_ref, L._thread_level_lock_ref):
+            if pool._refs:
+                return f'bookkeeping not empty after the last user left: {pool._refs}'
+        for fd in fds.values():
+            try:
+                os.fstat(fd)
+                return f'descriptor {fd} still open after the last user left'
+            except OSError:
+                pass
+        return None
+    finally:
+        import shutil
+        shutil.rmtree(d, ignore_errors=True)
+
+
+def bounded_path_lock(tier):
+    import itertools
+
+    depth = 3 if tier == 'quick' else 4
+    n = 0
+    samples = []
+    for k in range(1, depth + 1):
+        for case in itertools.product([(0, True), (0, False), (1, True), (1, False)], repeat=k):
+            n += 1
+            err = _nested_case(case)
+            if n % 40 == 1:
+                samples.append(repr(case))
+            if err:
+                return {'cases': n, 'nontrivial': n, 'samples': samples, 'bound': f'nesting depth <= {depth}, 2 paths',
+                        'fail': {'fid': 'src/pharmpy/internals/fs/lock.py:path_lock', 'case': [list(c) for c in case],
+                                 'clause': 'one descriptor per normalised path; pools empty and descriptor closed after the last user',
+                                 'detail': err, 'replay_fn': 'bounded_path_lock_replay'}}
+    return {'cases': n, 'nontrivial': n, 'samples': samples, 'bound': f'nesting depth <= {depth}, 2 paths'}
+
+
+def bounded_path_lock_replay(rp):
+    err = _nested_case([tuple(c) for c in rp['case']])
+    return (False, err) if err else (True, 'ok')
